@@ -4,6 +4,10 @@
 (*   trn   read_trn / write_trn            tokens and nested alternates    *)
 (*   ctm   read_ctm / write_ctm            timed tokens, wave/channel map  *)
 (*   tg    read_textgrid / write_textgrid  one tier, print precision, fill *)
+(*   tgu   the same for tiers whose entries are listed in ANY order and    *)
+(*         may overlap / nest: sorted read-back, tier start / end, fill    *)
+(*   trnid trn lines at character level: the utterance id between the last *)
+(*         pair of parentheses is read back verbatim (padding included)    *)
 (*   tok   transcript_to_token / token_to_transcript   seconds <-> frames   *)
 (*                                                                         *)
 (* Everything is abstract: tokens, utterances, waveforms and channels are  *)
@@ -24,7 +28,7 @@
 EXTENDS TranscriptsOps, TLC, Json
 
 CONSTANTS
-  Fams,          \* subset of {"trn", "ctm", "tg", "tok"}
+  Fams,          \* subset of {"trn", "trnid", "ctm", "tg", "tgu", "tok"}
   NTok,          \* tokens are 1..NTok
   \* trn
   TrnLeaves,     \* max number of tokens (leaves) of a transcript in single-utterance collections
@@ -43,12 +47,21 @@ CONSTANTS
   TgItems,       \* max intervals
   Precisions,    \* print precisions
   Base,          \* times are multiples of 10^-Base s
+  \* tgu
+  TgUTimes,      \* set of <<start, dur>> (base units) an entry may have; entries are listed in any order
+  TgUItems,      \* max entries
+  TgUPrecisions, \* print precisions
+  \* trnid
+  TrnIdCores,    \* set of id bodies: sequences over 0 (space) and positive "letters", no space at either end
+  TrnIdPad,      \* max padding (spaces / tabs) on either side of the id of a single-line file
+  TrnIdPadColl,  \* same, in multi-line files
+  TrnIdUtts,     \* max lines
   \* tok
   TokTimes,      \* set of <<start, dur>> (base units; <<-1, 0>> = no times)
   TokItems,      \* max items
   Shifts         \* frame shifts in base units; 0 = none (times are frame numbers already)
 
-ASSUME Base \in 0..4 /\ \A p \in Precisions : p \in 0..(Base + 2)
+ASSUME Base \in 0..4 /\ \A p \in Precisions \cup TgUPrecisions : p \in 0..(Base + 2)
 
 (***************************************************************************)
 (* trn: abstract syntax                                                    *)
@@ -77,6 +90,53 @@ TrnCollections ==      \* (guards: TLC evaluates constant definitions eagerly, o
   IF "trn" \notin Fams THEN {}
   ELSE {<<t>> : t \in TrnU(TrnLeaves)}
        \cup UNION {[1..m -> TrnU(TrnLeavesColl)] : m \in 2..TrnUtts}
+
+(***************************************************************************)
+(* trn at character level: the utterance id                                *)
+(* A line is the lexemes, each followed by one space, then "(", the id,    *)
+(* ")" and a newline (write_trn).  The reader strips the LINE, takes the   *)
+(* id verbatim from between the last "(" and the last ")" (sclite: spaces  *)
+(* are part of the utterance id) and splits the rest on spaces.  Characters*)
+(* are integers: 0 space, -1 tab, -2 "(", -3 ")", -4 newline, 1..99 the    *)
+(* letters of ids, 100 + t token t, 201..203 the delimiters { / }.         *)
+(***************************************************************************)
+ChSP == 0
+ChTAB == -1
+ChLP == -2
+ChRP == -3
+ChNL == -4
+White == {ChSP, ChTAB, ChNL}
+LexChar(x) == IF x > 0 THEN 100 + x ELSE 200 - x
+PadsUpTo(k) == UNION {[1..m -> {ChSP, ChTAB}] : m \in 0..k}
+TrnIdsPadded(k) == {l \o b \o t : l \in PadsUpTo(k), b \in TrnIdCores, t \in PadsUpTo(k)}
+TrnIdTr(j) ==     \* the transcript of line j (fixed: this family is about the ids)
+  CASE j = 1 -> <<Tok(1)>>
+    [] j = 2 -> <<Alt(<<<<Tok(1)>>, <<Tok(NTok)>>>>), Tok(NTok)>>
+    [] OTHER -> <<>>
+TrnIdCases ==
+  IF "trnid" \notin Fams THEN {}
+  ELSE {[ids |-> <<i>>] : i \in TrnIdsPadded(TrnIdPad)}
+       \cup UNION {{[ids |-> f] : f \in [1..m -> TrnIdsPadded(TrnIdPadColl)]} : m \in 2..TrnIdUtts}
+\* code-shaped writer
+RECURSIVE LexChars(_)
+LexChars(lex) == IF lex = <<>> THEN <<>> ELSE <<LexChar(Head(lex)), ChSP>> \o LexChars(Tail(lex))
+LineChars(lex, id) == LexChars(lex) \o <<ChLP>> \o id \o <<ChRP, ChNL>>
+\* code-shaped reader
+RECURSIVE StripL(_), StripR(_), SplitSP(_, _)
+StripL(s) == IF s # <<>> /\ Head(s) \in White THEN StripL(Tail(s)) ELSE s
+StripR(s) == IF s # <<>> /\ s[Len(s)] \in White THEN StripR(SubSeq(s, 1, Len(s) - 1)) ELSE s
+StripW(s) == StripR(StripL(s))
+RIndex(s, ch) == MaxOf({i \in 1..Len(s) : s[i] = ch})
+ReadId(line) ==
+  LET t == StripW(line) IN SubSeq(t, RIndex(t, ChLP) + 1, RIndex(t, ChRP) - 1)
+SplitSP(s, word) ==      \* words of s separated by spaces (empty words dropped)
+  IF s = <<>> THEN (IF word = <<>> THEN <<>> ELSE <<word>>)
+  ELSE IF Head(s) = ChSP THEN (IF word = <<>> THEN <<>> ELSE <<word>>) \o SplitSP(Tail(s), <<>>)
+  ELSE SplitSP(Tail(s), Append(word, Head(s)))
+ReadWords(line) ==
+  LET t == StripW(line) IN SplitSP(StripW(SubSeq(t, 1, RIndex(t, ChLP) - 1)), <<>>)
+\* what a reader that ALSO strips the id would return (the ids of the universe must tell the two apart)
+IdIsPadded(id) == StripW(id) # id
 
 (***************************************************************************)
 (* ctm                                                                     *)
@@ -167,6 +227,7 @@ TgCases == IF "tg" \notin Fams THEN {} ELSE {[tr |-> tr, prec |-> p] : tr \in Tg
 TgRounded(tr, p) == [i \in 1..Len(tr) |-> [tok |-> tr[i].tok, s |-> RoundTo(tr[i].s, p), e |-> RoundTo(tr[i].s + tr[i].d, p)]]
 AllPoints(r) == \A i \in 1..Len(r) : r[i].s = r[i].e
 \* point_tier option: "none" (inferred), "true", "false"
+PtOpts == <<"none", "true", "false">>
 TgIsPoint(tr, p, opt) == opt = "true" \/ (opt = "none" /\ AllPoints(TgRounded(tr, p)))
 TgReadBack(tr, p, opt) ==
   LET r == TgRounded(tr, p)
@@ -196,6 +257,57 @@ TgFillLoop(r, i, start) ==
   ELSE (IF start < r[i].s THEN <<[tok |-> FillTok, s |-> start, e |-> r[i].s]>> ELSE <<>>)
        \o <<r[i]>> \o TgFillLoop(r, i + 1, r[i].e)
 TgFilled(tr, p) == LET r == TgRounded(tr, p) IN TgFillLoop(r, 1, r[1].s)
+
+(***************************************************************************)
+(* TextGrid tiers listed in any order, entries possibly overlapping (tgu)  *)
+(* write_textgrid prints the entries in the order given, after a tier      *)
+(* header holding the tier's start = the EARLIEST start and end = the      *)
+(* LATEST end of all entries (not those of the first / last one listed);   *)
+(* read_textgrid sorts the entries by (start, end, label), returns the     *)
+(* header's start and end with them and fills from / up to those.  The     *)
+(* i-th entry listed carries token i.                                      *)
+(***************************************************************************)
+TgUListings ==
+  UNION {{[i \in 1..m |-> TItem(i, f[i][1], f[i][2])] : f \in [1..m -> TgUTimes]} : m \in 1..TgUItems}
+TgUCases == IF "tgu" \notin Fams THEN {} ELSE {[tr |-> tr, prec |-> p] : tr \in TgUListings, p \in TgUPrecisions}
+TguChrono(tr) == \A i \in 1..(Len(tr) - 1) : tr[i].s + tr[i].d <= tr[i + 1].s     \* what family "tg" covers
+\* code-shaped: header bounds, sorted read-back, fill loop from the header's start up to the header's end
+TguLo(tr, p) == RoundTo(MinOf({tr[i].s : i \in 1..Len(tr)}), p)
+TguHi(tr, p) == RoundTo(MaxOf({tr[i].s + tr[i].d : i \in 1..Len(tr)}), p)
+TguSorted(r) == Values(StableSort([i \in 1..Len(r) |-> <<<<r[i].s, r[i].e>>, r[i]>>]))
+TguBack(tr, p, opt) == TguSorted(TgReadBack(tr, p, opt))
+TguFilled(b, lo, hi) ==
+  TgFillLoop(b, 1, lo) \o (IF b[Len(b)].e < hi THEN <<[tok |-> FillTok, s |-> b[Len(b)].e, e |-> hi]>> ELSE <<>>)
+\* declarative: same entries; inside the tier; the tier is no wider than its entries
+TguReadOK(tr, p, opt, res, lo, hi) ==
+  /\ Bag(res) = Bag(TgReadBack(tr, p, opt))
+  /\ \A k \in 1..Len(res) : lo <= res[k].s /\ res[k].s <= res[k].e /\ res[k].e <= hi
+  /\ \E k \in 1..Len(res) : res[k].s = lo
+  /\ \E k \in 1..Len(res) : res[k].e = hi
+  /\ \A k \in 1..(Len(res) - 1) : res[k].s <= res[k + 1].s
+\* the order of the list is determined by the times alone / the entries do not overlap
+TguDistinct(b) == \A i \in 1..(Len(b) - 1) : LexLess(<<b[i].s, b[i].e>>, <<b[i + 1].s, b[i + 1].e>>)
+TguDisjoint(b) == \A i \in 1..(Len(b) - 1) : b[i].e <= b[i + 1].s
+\* declarative filling: between two neighbouring boundaries inside [lo, hi] there is a fill entry iff no
+\* entry covers that stretch
+TguFilledDecl(b, lo, hi) ==
+  LET cuts == {lo, hi} \cup UNION {{b[i].s, b[i].e} : i \in 1..Len(b)}
+      gaps == {[tok |-> FillTok, s |-> x, e |-> y] : x \in cuts, y \in cuts}
+      ok(g) == /\ g.s < g.e /\ lo <= g.s /\ g.e <= hi
+               /\ ~\E z \in cuts : g.s < z /\ z < g.e
+               /\ ~\E i \in 1..Len(b) : b[i].s <= g.s /\ g.e <= b[i].e
+      all == {b[i] : i \in 1..Len(b)} \cup {g \in gaps : ok(g)}
+      RECURSIVE Ord(_)
+      Ord(S) == IF S = {} THEN <<>>
+                ELSE LET x == CHOOSE y \in S : \A z \in S : ~LexLess(<<z.s, z.e>>, <<y.s, y.e>>)
+                     IN <<x>> \o Ord(S \ {x})
+  IN Ord(all)
+TguNoTie(tr, p) == \A t \in TgTimes(tr) : ~HasTie(t, p)
+\* filling is judged on interval tiers whose entries are pairwise disjoint (what "unlabelled gap" means
+\* under nested entries is not fixed by anything: the reader's loop then fills stretches that an
+\* enclosing entry labels)
+TguFillable(tr, p) ==
+  LET b == TguBack(tr, p, "false") IN TguDistinct(b) /\ TguDisjoint(b) /\ TguNoTie(tr, p)
 
 (***************************************************************************)
 (* seconds <-> frames (transcript_to_token / token_to_transcript)          *)
@@ -261,6 +373,8 @@ Init ==
   /\ cs \in (CASE fam = "trn" -> TrnCollections
                [] fam = "ctm" -> CtmCases
                [] fam = "tg" -> TgCases
+               [] fam = "tgu" -> TgUCases
+               [] fam = "trnid" -> TrnIdCases
                [] fam = "tok" -> TokCases)
   /\ lines = <<>>
   /\ ln = 0 /\ pos = 1 /\ stack = <<>> /\ cur = <<>> /\ parsed = <<>> /\ err = FALSE
@@ -340,6 +454,16 @@ TrnLexShape ==
 \* first-alternate flattening leaves plain tokens only, a subsequence of the leaves
 TrnFirstFlat == (fam = "trn" /\ Ready /\ ln <= Len(cs) /\ pos = 1) => \A i \in 1..Len(FirstBranch(cs[ln])) : IsTok(FirstBranch(cs[ln])[i])
 
+\* trn ids: whatever the padding, the id comes back verbatim and the words are the lexemes
+TrnIdLine(j) == LineChars(Lex(TrnIdTr(j)), cs.ids[j])
+TrnIdRoundTrip == (fam = "trnid" /\ Ready) =>
+  \A j \in 1..Len(cs.ids) :
+     /\ ReadId(TrnIdLine(j)) = cs.ids[j]
+     /\ ReadWords(TrnIdLine(j)) = [k \in 1..Len(Lex(TrnIdTr(j))) |-> <<LexChar(Lex(TrnIdTr(j))[k])>>]
+\* ... hence lines written with different ids are read with different ids
+TrnIdInjective == (fam = "trnid" /\ Ready) =>
+  \A i, j \in 1..Len(cs.ids) : cs.ids[i] # cs.ids[j] => ReadId(TrnIdLine(i)) # ReadId(TrnIdLine(j))
+
 \* ctm: the sorted-lines writer + grouping reader returns the collection up to the mandated ordering
 CtmRoundTrip == (fam = "ctm" /\ Ready) => (CtmCanonOK(cs, lines) /\ CtmTieSorted(cs, lines))
 CtmLinesSorted == (fam = "ctm" /\ Ready) =>
@@ -355,6 +479,27 @@ TgFillAgree == (fam = "tg" /\ Ready /\ TgJudgeable(cs.tr, cs.prec)) => TgFilled(
 TgFillPartition == (fam = "tg" /\ Ready) =>       \* after filling nothing between first start and last end is unlabelled
   LET f == TgFilled(cs.tr, cs.prec) IN \A i \in 1..(Len(f) - 1) : f[i].e = f[i + 1].s
 
+\* tgu: whatever the order of listing and the nesting, the sorted read-back holds the written entries
+\* (nearest printable times), all inside a tier that is exactly as wide as they are; on disjoint entries
+\* the fill loop run from / up to the tier's bounds yields the entries plus the unlabelled stretches
+TguRoundTrip == (fam = "tgu" /\ Ready) =>
+  \A k \in 1..3 : TgLegal(cs.tr, PtOpts[k]) =>
+     TguReadOK(cs.tr, cs.prec, PtOpts[k], TguBack(cs.tr, cs.prec, PtOpts[k]), TguLo(cs.tr, cs.prec), TguHi(cs.tr, cs.prec))
+TguBoundsNearest == (fam = "tgu" /\ Ready /\ TguNoTie(cs.tr, cs.prec)) =>
+  /\ IsNearest(TguLo(cs.tr, cs.prec), MinOf({cs.tr[i].s : i \in 1..Len(cs.tr)}), cs.prec)
+  /\ IsNearest(TguHi(cs.tr, cs.prec), MaxOf({cs.tr[i].s + cs.tr[i].d : i \in 1..Len(cs.tr)}), cs.prec)
+TguFillAgree == (fam = "tgu" /\ Ready /\ TguFillable(cs.tr, cs.prec)) =>
+  LET b == TguBack(cs.tr, cs.prec, "false")
+      f == TguFilled(b, TguLo(cs.tr, cs.prec), TguHi(cs.tr, cs.prec))
+  IN /\ f = TguFilledDecl(b, TguLo(cs.tr, cs.prec), TguHi(cs.tr, cs.prec))
+     /\ f[1].s = TguLo(cs.tr, cs.prec) /\ f[Len(f)].e = TguHi(cs.tr, cs.prec)
+     /\ \A i \in 1..(Len(f) - 1) : f[i].e = f[i + 1].s
+\* on chronological listings this family says what family "tg" says
+TguExtendsTg == (fam = "tgu" /\ Ready /\ TguChrono(cs.tr)) =>
+  /\ \A k \in 1..3 : TguBack(cs.tr, cs.prec, PtOpts[k]) = TgReadBack(cs.tr, cs.prec, PtOpts[k])
+  /\ TguFillable(cs.tr, cs.prec) =>
+       TguFilled(TguBack(cs.tr, cs.prec, "false"), TguLo(cs.tr, cs.prec), TguHi(cs.tr, cs.prec)) = TgFilled(cs.tr, cs.prec)
+
 \* frames: the documented formulas recover every time to within one frame shift
 TokBound == (fam = "tok" /\ Ready) => TokBoundOK(cs)
 
@@ -364,7 +509,6 @@ TypeOK == fam \in Fams /\ err \in BOOLEAN
 (* Export                                                                  *)
 (***************************************************************************)
 Emit(rec) == PrintT(<<"VFJ", ToJson(rec)>>)
-PtOpts == <<"none", "true", "false">>
 Export ==
   /\ TrnDone =>
        Emit([fam |-> "trn", coll |-> cs, lex |-> lines,
@@ -382,6 +526,27 @@ Export ==
                           back |-> TgReadBack(cs.tr, cs.prec, PtOpts[k])]],
              filled |-> TgFilled(cs.tr, cs.prec),
              xmin |-> RoundTo(MinOf(TgTimes(cs.tr)), cs.prec), xmax |-> RoundTo(MaxOf(TgTimes(cs.tr)), cs.prec)])
+  /\ (fam = "trnid" /\ Ready) =>
+       Emit([fam |-> "trnid", ids |-> cs.ids,
+             coll |-> [j \in 1..Len(cs.ids) |-> TrnIdTr(j)],
+             lex |-> [j \in 1..Len(cs.ids) |-> Lex(TrnIdTr(j))],
+             depth |-> [j \in 1..Len(cs.ids) |-> Depth(TrnIdTr(j))],
+             chars |-> [j \in 1..Len(cs.ids) |-> TrnIdLine(j)],
+             padded |-> [j \in 1..Len(cs.ids) |-> IdIsPadded(cs.ids[j])],
+             twins |-> \E i, j \in 1..Len(cs.ids) : cs.ids[i] # cs.ids[j] /\ StripW(cs.ids[i]) = StripW(cs.ids[j])])
+  /\ (fam = "tgu" /\ Ready) =>
+       Emit([fam |-> "tgu", tr |-> cs.tr, prec |-> cs.prec, chrono |-> TguChrono(cs.tr),
+             tie |-> ~TguNoTie(cs.tr, cs.prec),
+             judge |-> TguDistinct(TguBack(cs.tr, cs.prec, "false")) /\ TguNoTie(cs.tr, cs.prec),
+             fillable |-> TguFillable(cs.tr, cs.prec),
+             opts |-> [k \in 1..3 |->
+                         [opt |-> PtOpts[k], legal |-> TgLegal(cs.tr, PtOpts[k]),
+                          point |-> TgIsPoint(cs.tr, cs.prec, PtOpts[k]),
+                          back |-> TguBack(cs.tr, cs.prec, PtOpts[k])]],
+             filled |-> IF TguFillable(cs.tr, cs.prec)
+                        THEN TguFilled(TguBack(cs.tr, cs.prec, "false"), TguLo(cs.tr, cs.prec), TguHi(cs.tr, cs.prec))
+                        ELSE <<>>,
+             xmin |-> TguLo(cs.tr, cs.prec), xmax |-> TguHi(cs.tr, cs.prec)])
   /\ (fam = "tok" /\ Ready) =>
        Emit([fam |-> "tok", tr |-> cs.tr, map |-> cs.set.map, unk |-> cs.set.unk, shift |-> cs.shift,
              skip |-> cs.skip, rows |-> TokRows(cs), back |-> TokBack(cs),
